@@ -76,6 +76,9 @@ inductive Simple where
   | storeOldMinus (k : Nat) (o : Ord)
   /-- `self.0.store(v, ord)` of a literal: a NON-atomic update of the counter. -/
   | storeLit (v : Nat) (o : Ord)
+  /-- a load of the counter inside a `debug_assert!(…)`: executed only when debug assertions are
+  compiled in; the value is only compared (the register `old` is not changed) -/
+  | debugLoad (o : Ord)
   /-- `self.0.fetch_sub(n, ord);` with the result discarded (e.g. a compensating decrement). -/
   | rmwSub (n : Nat) (o : Ord)
   /-- `self.0.fetch_add(n, ord);` with the result discarded. -/
@@ -133,12 +136,17 @@ def AStep.hasStore : AStep → Bool
 /-- "Every modification of the counter is an atomic read-modify-write": no plain `store`. -/
 def noPlainStore (code : List AStep) : Bool := !code.any AStep.hasStore
 
+/-- A straight-line statement that writes the counter (plain store or RMW). -/
+def Simple.writes : Simple → Bool
+  | .fence _ | .debugLoad _ => false
+  | _ => true
+
 /-- A step that writes the counter (RMW, CAS loop or plain store). -/
 def AStep.writes : AStep → Bool
   | .rmwSub .. | .rmwAdd .. | .casLoop .. => true
-  | .simple s => !s.isFence
-  | .branch _ _ thn _ els _ => !(thn.all Simple.isFence && els.all Simple.isFence)
-  | .guard _ _ thn _ => !thn.all Simple.isFence
+  | .simple s => s.writes
+  | .branch _ _ thn _ els _ => thn.any Simple.writes || els.any Simple.writes
+  | .guard _ _ thn _ => thn.any Simple.writes
   | _ => false
 
 /-- The method never writes the counter. -/
